@@ -150,6 +150,11 @@ def real_traces(groups, rng, tier, modes=('keygen', 'std', 'safe'), kms=None):
                     jobs.append((g, km, mode, dict(v, kind='partialz')))
                 if rot and g['iid'] in (0, 1, 2, 5, 6, 7, 8, 9):
                     jobs.append((g, km, mode, dict(v, kind='method')))
+                    if (n + gi) % 2 == 0:
+                        jobs.append((g, km, mode, dict(v, kind='method0')))
+                # ... and as an instance of a class with __call__
+                if rot and (n + gi + g['iid']) % 2 == 0:
+                    jobs.append((g, km, mode, dict(v, kind='callable')))
                 if rot and (any(p['hd'] for p in g['sig']['pos']) or any(p['hd'] for p in g['sig']['ko'])):
                     jobs.append((g, km, mode, dict(v, kind='sibling')))
                 if rot and g['iid'] in (1, 2, 3, 4, 5, 6, 7, 8, 10) and mode != 'keygen':
